@@ -33,6 +33,10 @@ def c17(lines):
     t[i]["o"]["rec"].remove("reply")         # a field is not recovered
     yield "Recover.rec -= reply", t
     t = copy.deepcopy(lines)
+    i = first(t, lambda o: o["e"] == "Split" and "body" in o["o"]["stok"])
+    t[i]["o"]["ptok"].append("body")         # the body's value is found in the raw text of both parts
+    yield "Split.ptok += body (value in both parts)", t
+    t = copy.deepcopy(lines)
     i = first(t, lambda o: o["e"] == "Split")
     t[i]["o"]["pub"].append("?secret|urn:x")  # an element nobody knows in the public part
     yield "Split.pub += unknown element", t
